@@ -12,6 +12,8 @@
 #include "vorbis/vorbisenc.h"
 #include "vorbis/vorbisfile.h"
 #include "codec_internal.h"
+/* exported by lib/block.c for vorbisfile, declared in no header */
+extern const float *vorbis_window(vorbis_dsp_state *v,int W);
 
 typedef struct { unsigned char *p; long n; } bytes_t;
 
